@@ -1337,6 +1337,13 @@ class Authenticated(BaseClientHandler):
             idling = self.idling
             self.idling = True
             async with cmd.ready_and_okay(self.mbox):
+                # Notifications may have been queued for us while we waited
+                # for our turn (eg: FETCH FLAGS of newly arrived messages).
+                # They have to go out before the EXPUNGEs that we are about
+                # to be sent directly, or their sequence numbers are stale.
+                #
+                await self.send_pending_notifications()
+
                 # Do an EXPUNGE if there are any messages marked 'Delete'
                 #
                 if self.mbox.sequences.get("Deleted", []):
@@ -1712,6 +1719,10 @@ class Authenticated(BaseClientHandler):
             idling = self.idling
             self.idling = True
             async with expunge_cmd.ready_and_okay(self.mbox):
+                # Same as in do_expunge: queued notifications go out before
+                # the EXPUNGEs we are sent directly.
+                #
+                await self.send_pending_notifications()
                 await self.mbox.expunge(
                     uid_msg_set=src_uid_list,
                     check_deleted=False,
